@@ -565,6 +565,24 @@ def check_formatting_cannot_panic(ctx, prog, fns, tag="", rule="C14.F14.formatti
             t = f.term(bb)
             if t["k"] == "assert" and str(t.get("kind", "")).startswith("BoundsCheck"):
                 sites.append((bb, "element index"))
+        def _clamped(op):
+            return any(o.kind == "call" and o.call.name.split("::")[-1] == "min" and any(
+                oo.kind == "call" and oo.call.name.split("::")[-1] == "len" or (getattr(oo, "rv", None) or {}).get("k") == "len"
+                or ((getattr(oo, "rv", None) or {}).get("k") == "un" and (getattr(oo, "rv", None) or {}).get("op") == "PtrMetadata")
+                for a_ in o.call.args if "c" not in a_ for oo in flow.origins(f, a_)) for o in flow.origins(f, op))
+
+        def _range_clamped(bb):
+            # `xs[a.min(xs.len())..b.min(xs.len())]`: every bound of the range is clamped to the length
+            c_ = [k for k in f.calls() if k.bb == bb][0]
+            for a_ in c_.args[1:]:
+                for o in flow.origins(f, a_):
+                    if o.kind == "agg" and "Range" in (o.rv.get("adt") or ""):
+                        bounds = [x for x in o.rv["ops"] if "c" not in x]
+                        consts = [x for x in o.rv["ops"] if "c" in x]
+                        if bounds and all(_clamped(x) for x in bounds) and all(const_int(x) == 0 for x in consts):
+                            return True
+            return False
+        sites = [(bb, what) for bb, what in sites if not (what == "slice[range]" and _range_clamped(bb))]
         per = {}
         for bb, what in sites:
             n += 1
